@@ -24,7 +24,7 @@ GROUPS.append(G("op_PotOp_int", OPS, "h_PotOp_int", enforce=[], link=LINK, stubs
                 bounded="exponent <= 2 (two 64-bit multiplier equivalences already exceed 300 s on every installed SAT back end)"))
 GROUPS.append(G("op_PotOp_f", OPS, "h_PotOp_f", enforce=[], link=LINK, stubs=STUBS, defs=["-DVERIF_OPT_FLOAT"], unwind=6, timeout=300, dfcc=False, functions=["PotOp"], solver="kissat",
                 bounded="negative base, exponent 1.0 (the accumulated product is returned, not the squared base)"))
-GROUPS.append(G("op_PotOp_f2", OPS, "h_PotOp_f", enforce=[], link=LINK, stubs=STUBS, defs=["-DVERIF_OPT_FLOAT", "-DVERIF_POT_EXP2"], unwind=6, timeout=1500, dfcc=False, functions=["PotOp"], solver="kissat", tier="thorough",
+GROUPS.append(G("op_PotOp_f2", OPS, "h_PotOp_f", enforce=[], link=LINK, stubs=STUBS, defs=["-DVERIF_OPT_FLOAT", "-DVERIF_POT_EXP2"], unwind=6, timeout=1500, dfcc=False, functions=["PotOp"], solver="kissat", tier="off", note="not decided within 1500 s on any installed back end (one double-precision multiplier equivalence); kept for --only runs",
                 bounded="negative base, exponent 2.0 (one FP multiplier equivalence)"))
 FUNCS = "harness/C08/functions.c"
 def fn(name, entry=None, defs=None, unwind=None, link=None, **kw):
